@@ -26,6 +26,7 @@ def stepM (st : MState) (line : String) : MState × List String :=
   | "F" :: rest => ({ st with forest := parseForest rest [] }, [])
   | ["FRAW"] => (st, rawRecords st.forest ++ ["."])
   | ["FCOOKED"] => (st, cookedRecords st.forest ++ ["."])
+  | ["FVAL"] => (st, valueRecords st.forest ++ ["."])
   | ["FUNITS"] => (st, cookedUnits st.forest ++ ["."])
   | ["FATCHK"] => (st, findAttrDisagreements st.forest ++ ["."])
   | "FAT" :: names => (st, findAttrRecords st.forest (names.filterMap String.toNat?) ++ ["."])
